@@ -1018,7 +1018,7 @@ def suite_utils(rng, tier):
             gl = 5 + ll + pl
             if gl > 4095:
                 continue
-            total = pl + rng.randrange(1, 200)
+            total = pl + rng.randrange(4, 200)      # at least 4 more bytes, else the PDU fits a complete packet
             tl = 2 + ll + total
             a = both("F", "%d %d %d %04x %s %s" % (gl, fid, tl, pt, lab.tok(), pdu.expr), (gl, fid, tl, pt, lab, pdu))
             if lab.kind != "U" and pl < total:
